@@ -383,6 +383,14 @@ Definition do_step (l : list elem) (s : step) : elem * list elem :=
   | StCb m f => call_cb m f l
   | StRed f init => call_reduce f l init
   end.
+(* a chained call  $a->m1(..)->m2(..)  (no variable in between): m2 runs on the VALUE m1 returned;
+   the receiver $a sees m1 only — whatever m2 does to that value must not reach it *)
+Definition run_chain (l : list elem) (s1 s2 : step) : option (elem * list elem) :=
+  let p1 := do_step l s1 in
+  match fst p1 with
+  | EArr l1 => Some (fst (do_step l1 s2), snd p1)
+  | _ => None
+  end.
 (* the receiver object carries its contents from one call to the next; whatever else the Go slice
    carries (spare capacity, backing array) must not be observable *)
 Fixpoint run_seq (l : list elem) (ss : list step) : list (elem * list elem) :=
